@@ -10,14 +10,18 @@
      good_poly atol poly   no edge has 0 < |dy| <= atol or 0 < |dx| < atol
      pip_point N atol poly p   the value points_inside_polygon stores for point p
                                (None = ValueError)
-   That an odd crossing number means "topological interior" (Jordan curve
-   theorem for polygons) is NOT proved here in general (it is proved for
-   rectangles, C15_rectangle_interior); the exact rational oracle of
-   harness/props/c15.py, which casts a ray in a generic direction, decides it
-   on the implementation. *)
+   The even-odd rule is proved in two forms: (1) parity of the crossings of the
+   horizontal ray to the right (C15_inside_is_crossing_parity); (2) the
+   ray-free covering form: parity of the number of fan triangles
+   (v0, vi, vi+1) that strictly contain the point (C15_inside_is_fan_parity),
+   which for a triangle or a rectangle is the topological interior itself
+   (C15_triangle_interior, C15_rectangle_interior).  The Jordan curve theorem
+   (for a simple polygon the odd-parity set is the bounded component) is NOT
+   proved; the exact oracle of harness/props/c15.py, which casts a ray in a
+   generic direction, decides the property on the implementation. *)
 From Coq Require Import ZArith Bool List Reals Sorted.
 From Hy Require Import Base.Num Gen.ConstsC15 Model.Grid Model.Polygon.
-From Hy Require Import Proofs.PolygonProofs Proofs.PolygonInvProofs.
+From Hy Require Import Proofs.PolygonProofs Proofs.PolygonInvProofs Proofs.PolygonTriProofs.
 Import ListNotations.
 Open Scope R_scope.
 
@@ -165,6 +169,50 @@ Theorem C15_rectangle_interior : forall atol a b c d x y,
   (pip_point RR atol (rectangle a b c d) (x, y) = Some 0%Z <-> ~ (a < x < b /\ c < y < d)).
 Proof. exact rectangle_interior. Qed.
 Print Assumptions C15_rectangle_interior.
+
+(* for a triangle - either orientation, degenerate or not - the answer is the
+   strict interior, for every point off the three lines carrying the sides *)
+Theorem C15_triangle_interior : forall atol a b c p,
+  good_poly atol [a; b; c] ->
+  orient a b p <> 0 -> orient b c p <> 0 -> orient c a p <> 0 ->
+  (pip_point RR atol [a; b; c] p = Some 1%Z <-> in_triangle a b c p).
+Proof. exact triangle_interior. Qed.
+Print Assumptions C15_triangle_interior.
+
+Example C15_triangle_nonvacuous :
+  good_poly PIP_ATOL_DEFAULT_R [(0, 0); (4, 1); (1, 3)] /\
+  0 < orient (0, 0) (4, 1) (2, 1) /\ 0 < orient (4, 1) (1, 3) (2, 1) /\
+  0 < orient (1, 3) (0, 0) (2, 1).
+Proof. exact triangle_example. Qed.
+Print Assumptions C15_triangle_nonvacuous.
+
+(* the even-odd rule in its covering form, for EVERY polygon v0 :: l (convex
+   or not, self-intersecting or not, any number of vertices): the answer is
+   the parity of the number of fan triangles (v0, vi, vi+1) that strictly
+   contain the point, for every point off the lines carrying those triangles'
+   sides.  No ray, no direction: the statement is invariant under rotations
+   of the plane. *)
+Theorem C15_inside_is_fan_parity : forall atol v0 l p,
+  good_poly atol (v0 :: l) ->
+  Forall (off_lines v0 p) (path l) ->
+  pip_point RR atol (v0 :: l) p =
+  Some (if Nat.odd (fan_count v0 l p) then 1%Z else 0%Z).
+Proof. exact inside_is_fan_parity. Qed.
+Print Assumptions C15_inside_is_fan_parity.
+
+Example C15_fan_nonvacuous :
+  good_poly PIP_ATOL_DEFAULT_R ((0, 0) :: [(2, 0); (2, 1); (1, 1); (1, 2); (0, 2)]) /\
+  Forall (off_lines (0, 0) (1 / 2, 5 / 4)) (path [(2, 0); (2, 1); (1, 1); (1, 2); (0, 2)]).
+Proof. exact fan_example. Qed.
+Print Assumptions C15_fan_nonvacuous.
+
+(* a point with a missing (NaN) coordinate is answered 0, whatever the polygon
+   holds (reals with an explicit missing value) *)
+Theorem C15_nan_point_zero : forall atol (poly : list (option R * option R)) x y,
+  poly <> [] -> x = None \/ y = None ->
+  pip_point RN atol poly (x, y) = Some 0%Z.
+Proof. exact nan_point_zero. Qed.
+Print Assumptions C15_nan_point_zero.
 
 (* ---- glue of gutils.points_inside_polygon ---- *)
 Theorem C15_inside_vector_supplied : forall {T} (N : NumOps T) atol pts poly,
